@@ -289,7 +289,20 @@ def size_threshold(test):
     return best
 
 
+def size_like(e):
+    if isinstance(e, ast.Call) and isinstance(e.func, ast.Name) and e.func.id == 'len':
+        return True
+    if isinstance(e, ast.Attribute) and e.attr == 'size':
+        return True
+    if isinstance(e, ast.Subscript) and isinstance(e.value, ast.Attribute) and e.value.attr == 'shape':
+        return True
+    if isinstance(e, ast.BinOp) and isinstance(e.op, (ast.Sub, ast.Add)):
+        return size_like(e.left) or size_like(e.right)
+    return False
+
+
 class Interp:
+    quotients = {}  # id(`size // K` node) -> [node, K, largest quotient seen, function]
     arms = {}       # id(If node) -> [node, then-arm reached, else-arm reached, function]
     fn_calls = {}   # 'file:qualname' -> number of abstract interpretations of that repository function in this run
     strides = {}    # id(range(...) call with a step) -> [node, largest step, most blocks ever produced, function]
@@ -1125,7 +1138,13 @@ class Interp:
     def ex_BinOp(self, node, frame):
         a = self.eval(node.left, frame)
         b = self.eval(node.right, frame)
-        return self.models.binop(self, type(node.op).__name__, a, b, node)
+        res = self.models.binop(self, type(node.op).__name__, a, b, node)
+        if isinstance(node.op, ast.FloorDiv) and isinstance(a, int) and isinstance(b, int) and not isinstance(a, bool) and b > 3 and isinstance(res, int) \
+                and size_like(node.left):
+            # `n // K` with n a length / size: how large the quotient ever became (see Check.check_length_branches)
+            rec = Interp.quotients.setdefault(id(node), [node, b, 0, self.call_stack[-1] if self.call_stack else '?'])
+            rec[2] = max(rec[2], res)
+        return res
 
     def ex_Compare(self, node, frame):
         left = self.eval(node.left, frame)
